@@ -18,6 +18,7 @@ mod dwarf;
 mod features;
 mod gate;
 mod maps;
+mod edits;
 
 fn main() {
     let args: Vec<String> = std::env::args().collect();
@@ -48,6 +49,7 @@ fn main() {
         "features" => features::features(&args[2..]),
         "gate" => gate::gate(&args[2..]),
         "maps" => maps::maps(&args[2..]),
+        "edits" => edits::edits_battery(&args[2..]),
         other => {
             eprintln!("unknown subcommand {other}");
             exit(2)
